@@ -132,7 +132,10 @@ def gen_ded_system(rng, abkinds=None, scalar_only=True, realisable=True):
     others = ts[1:]
     if rng.random() < 0.12:          # a task that never releases a job (arrival::Never), anywhere among the other tasks
         others.insert(rng.randint(0, len(others)), ["rbf", ["never"], ["scalar", rng.randint(1, 9)]])
-    return ts[0], others
+    tua = ts[0]
+    if rng.random() < 0.04:          # an analysed task whose arrival curve does not step at delta = 1 (nothing ever arrives)
+        tua = ["rbf", ["never"] if rng.random() < 0.7 else ["propagated", rng.randint(0, 9), ["never"]], ["scalar", rng.randint(2, 9)]]
+    return tua, others
 
 def q_fp(rng, which=None, abkinds=None, realisable=True):
     tua, hp = gen_ded_system(rng, abkinds, True, realisable)
